@@ -227,9 +227,23 @@ def read_source(repo, features=()):
 # ------------------------------------------------------------------ type -> codec
 
 class Codec:
-    def __init__(self, coq, enc, dec, wf, rt, uses_b=False, blob=False, minsize=0, streamed=False):
+    def __init__(self, coq, enc, dec, wf, rt, uses_b=False, blob=False, minsize=0, streamed=False,
+                 ty=None, sw=None, ms=None, counted=()):
         self.coq, self.enc, self.dec, self.wf, self.rt = coq, enc, dec, wf, rt
         self.uses_b, self.blob, self.minsize, self.streamed = uses_b, blob, minsize, streamed
+        # typed predicate, size_wf proof, min_size proof (default: typed = wf, nothing to derive)
+        self.ty = ty or wf
+        self.sw = sw or "sw_same _ _ _"
+        self.ms = ms or "ms_zero _ _"
+        if ms is None:
+            self.minsize = 0
+        self.counted = list(counted)   # arrays whose count bound stays a hypothesis
+
+    def swT(self):
+        return "(%s : size_wf %s %s %s MAX_MESSAGE_SIZE)" % (self.sw, P(self.enc), P(self.ty), P(self.wf))
+
+    def msT(self):
+        return "(%s : min_size %s %s %d)" % (self.ms, P(self.enc), P(self.ty), self.minsize)
 
 
 def P(s):
@@ -258,66 +272,79 @@ class Translator:
         self.has_blob = {}
         self.has_streamed = {}
         self.minsz = {}
+        self.counted = {}
 
     # codec of a type reached through T::consensus_encode (Array elements, nested structs, ...)
     def consensus(self, ty, where):
         name, args = ty
         if name == "u8arr":
-            return Codec("bytes", "enc_fixed %d" % args, "dec_fixed %d" % args, "wf_fixed %d" % args, "rt_fixed %d" % args, minsize=args)
+            return Codec("bytes", "enc_fixed %d" % args, "dec_fixed %d" % args, "wf_fixed %d" % args, "rt_fixed %d" % args, minsize=args, ms="ms_fixed %d" % args)
         if name == "u8":
-            return Codec("N", "enc_u8", "dec_u8", "wf_u8", "rt_u8", minsize=1)
+            return Codec("N", "enc_u8", "dec_u8", "wf_u8", "rt_u8", minsize=1, ms="ms_be 1")
         if name in ("u16", "u32", "u64"):   # rust-bitcoin's own integers are little-endian
-            return Codec("N", "enc_%sle" % name, "dec_%sle" % name, "wf_%s" % name, "rt_%sle" % name, minsize=BE[name])
+            return Codec("N", "enc_%sle" % name, "dec_%sle" % name, "wf_%s" % name, "rt_%sle" % name, minsize=BE[name], ms="ms_le %d" % BE[name])
         if name == "bool":
-            return Codec("bool", "enc_bool", "dec_bool", "wf_bool", "rt_bool", minsize=1)
+            return Codec("bool", "enc_bool", "dec_bool", "wf_bool", "rt_bool", minsize=1, ms="ms_bool")
         if name in FIXED:
             n = FIXED[name]
-            return Codec("bytes", "enc_fixed %d" % n, "dec_fixed %d" % n, "wf_fixed %d" % n, "rt_fixed %d" % n, minsize=n)
+            return Codec("bytes", "enc_fixed %d" % n, "dec_fixed %d" % n, "wf_fixed %d" % n, "rt_fixed %d" % n, minsize=n, ms="ms_fixed %d" % n)
         if name == "OutPoint":
-            return Codec("OutPoint", "enc_OutPoint", "dec_OutPoint", "wf_OutPoint", "rt_OutPoint", minsize=36)
+            return Codec("OutPoint", "enc_OutPoint", "dec_OutPoint", "wf_OutPoint", "rt_OutPoint", minsize=36, ms="ms_OutPoint")
         if name == "Octets":
-            return Codec("bytes", "enc_octets", "dec_octets", "wf_octets", "rt_octets", minsize=2)
+            return Codec("bytes", "enc_octets", "dec_octets", "wf_octets", "rt_octets", minsize=2, ms="ms_octets")
         if name == "LargeOctets":
-            return Codec("bytes", "enc_largeoctets", "dec_largeoctets", "wf_largeoctets", "rt_largeoctets", minsize=4)
+            return Codec("bytes", "enc_largeoctets", "dec_largeoctets", "wf_largeoctets", "rt_largeoctets", minsize=4,
+                         ty="ty_any", sw="sw_largeoctets MAX_MESSAGE_SIZE eq_refl", ms="ms_largeoctets _")
         if name == "WireString":
-            return Codec("bytes", "enc_wirestring", "dec_wirestring", "wf_wirestring", "rt_wirestring", minsize=1)
+            return Codec("bytes", "enc_wirestring", "dec_wirestring", "wf_wirestring", "rt_wirestring", minsize=1, ms="ms_wirestring")
         if name == "Array" and len(args) == 1:
             e = self.consensus(args[0], where)
-            return self.array(e)
+            return self.array(e, where)
         if name == "ArrayBE" and len(args) == 1:
             if args[0][0] in BE:            # BigEndianEncodable for integers
                 n = args[0][0]
-                e = Codec("N", "enc_" + n, "dec_" + n, "wf_" + n, "rt_" + n, minsize=BE[n])
+                e = Codec("N", "enc_" + n, "dec_" + n, "wf_" + n, "rt_" + n, minsize=BE[n], ms="ms_be %d" % BE[n])
             elif args[0][0] in self.structs:  # derive delegates to consensus_encode
                 e = self.consensus(args[0], where)
             else:
                 raise GenError("%s: ArrayBE element %r unsupported" % (where, args[0]))
-            return self.array(e)
+            return self.array(e, where)
         if name == "WithSize" and len(args) == 1:
             inner = args[0][0]
             if inner == "Transaction":
-                return Codec("TxT B", "enc_ws_tx B", "dec_ws_tx B", "wf_ws_tx B", "rt_ws_tx B HB", True, True, 4)
+                return Codec("TxT B", "enc_ws_tx B", "dec_ws_tx B", "wf_ws_tx B", "rt_ws_tx B HB", True, True, 4,
+                             ty="ty_any", sw="sw_ws_tx B MAX_MESSAGE_SIZE eq_refl", ms="ms_withsize _ _")
             if inner == "PsbtWrapper":
-                return Codec("PsbtT B", "enc_ws_psbt B", "dec_ws_psbt B", "wf_ws_psbt B", "rt_ws_psbt B HB", True, True, 4)
+                return Codec("PsbtT B", "enc_ws_psbt B", "dec_ws_psbt B", "wf_ws_psbt B", "rt_ws_psbt B HB", True, True, 4,
+                             ty="ty_any", sw="sw_ws_psbt B MAX_MESSAGE_SIZE eq_refl", ms="ms_withsize _ _")
             if inner == "StreamedPSBT":
-                return Codec("PsbtT B", "enc_ws_streamed B", "dec_ws_streamed B", "wf_ws_streamed B", "rt_ws_streamed B HB", True, True, 4, True)
+                return Codec("PsbtT B", "enc_ws_streamed B", "dec_ws_streamed B", "wf_ws_streamed B", "rt_ws_streamed B HB", True, True, 4, True,
+                             ty="ty_streamed B", sw="sw_ws_streamed B MAX_MESSAGE_SIZE eq_refl", ms="ms_withsize _ _")
             e = self.consensus(args[0], where)
             return Codec(e.coq, "enc_withsize %s" % P(e.enc), "dec_withsize (exact %s)" % P(e.dec),
                          "wf_withsize %s %s" % (P(e.enc), P(e.wf)),
                          "rt_withsize %s (exact %s) %s (exact_of_roundtrip _ _ _ %s)" % (P(e.enc), P(e.dec), P(e.wf), P(e.rt)),
-                         e.uses_b, e.blob, 4, e.streamed)
+                         e.uses_b, e.blob, 4, e.streamed,
+                         ty=e.ty, sw="sw_withsize _ _ _ MAX_MESSAGE_SIZE %s eq_refl" % e.swT(), ms="ms_withsize _ _", counted=e.counted)
         if name == "DebugTxoProof" and not args:
-            return Codec("ProofT B", "enc_proof B", "dec_proof B", "wf_proof B", "rt_proof B HB", True, True, 5)
+            return Codec("ProofT B", "enc_proof B", "dec_proof B", "wf_proof B", "rt_proof B HB", True, True, 0)
         if name in self.structs and not args:
             self.struct_info(name)
             return Codec("T_" + name, "enc_" + name, "dec_" + name, "wf_" + name, "rt_" + name,
-                         self.uses_b[name], self.has_blob[name], self.minsz[name], self.has_streamed[name])
+                         self.uses_b[name], self.has_blob[name], self.minsz[name], self.has_streamed[name],
+                         ty="ty_" + name, sw="sw_" + name, ms="ms_" + name, counted=self.counted[name])
         raise GenError("%s: type %s%s has no codec in the model (Transaction / PsbtWrapper / StreamedPSBT are only "
                        "supported inside WithSize<>)" % (where, name, "<..>" if args else ""))
 
-    def array(self, e):
+    def array(self, e, where="?"):
+        # the count bound follows from MAX_MESSAGE_SIZE iff max < minsize(elem) * 2^16 (checked again by Coq: eq_refl)
+        if self.src["max_message_size"] < e.minsize * 65536:
+            ty, sw, counted = "forallb %s" % P(e.ty), "sw_array _ _ _ MAX_MESSAGE_SIZE _ %s %s eq_refl" % (e.swT(), e.msT()), e.counted
+        else:
+            ty, sw, counted = "wf_array %s" % P(e.ty), "sw_array_counted _ _ _ _ %s" % e.swT(), e.counted + [where]
         return Codec("list %s" % P(e.coq), "enc_array %s" % P(e.enc), "dec_array %s" % P(e.dec), "wf_array %s" % P(e.wf),
-                     "rt_array _ _ _ %s" % P(e.rt), e.uses_b, e.blob, 2, e.streamed)
+                     "rt_array _ _ _ %s" % P(e.rt), e.uses_b, e.blob, 2, e.streamed,
+                     ty=ty, sw=sw, ms="ms_array _ _", counted=counted)
 
     # codec of a struct field as the Encodable/Decodable derive emits it
     def field(self, ty, where):
@@ -325,13 +352,14 @@ class Translator:
         if name == "u8arr":
             return self.consensus(ty, where)    # element-wise u8 = raw bytes
         if name in BE and not args:             # derive: to_be_bytes
-            return Codec("N", "enc_" + name, "dec_" + name, "wf_" + name, "rt_" + name, minsize=BE[name])
+            return Codec("N", "enc_" + name, "dec_" + name, "wf_" + name, "rt_" + name, minsize=BE[name], ms="ms_be %d" % BE[name])
         if name in ("u128", "i8", "i16", "i32", "i64", "i128"):
             raise GenError("%s: numeric type %s not modelled" % (where, name))
         if name == "Option" and len(args) == 1:
             e = self.field(args[0], where)
             return Codec("option %s" % P(e.coq), "enc_option %s" % P(e.enc), "dec_option %s" % P(e.dec),
-                         "wf_option %s" % P(e.wf), "rt_option _ _ _ %s" % P(e.rt), e.uses_b, e.blob, 1, e.streamed)
+                         "wf_option %s" % P(e.wf), "rt_option _ _ _ %s" % P(e.rt), e.uses_b, e.blob, 1, e.streamed,
+                         ty="wf_option %s" % P(e.ty), sw="sw_option _ _ _ _ %s" % e.swT(), ms="ms_option _ _", counted=e.counted)
         return self.consensus(ty, where)
 
     def struct_info(self, name):
@@ -341,12 +369,14 @@ class Translator:
         self.uses_b[name] = False   # (recursive structs do not occur; a cycle would loop in Coq anyway)
         self.has_blob[name] = False
         self.has_streamed[name] = False
+        self.counted[name] = []
         cs = [self.field(t, "%s.%s" % (name, f)) for f, t in it["fields"]]
         it["codecs"] = cs
         self.uses_b[name] = any(c.uses_b for c in cs)
         self.has_blob[name] = any(c.blob for c in cs)
         self.has_streamed[name] = any(c.streamed for c in cs)
         self.minsz[name] = sum(c.minsize for c in cs)
+        self.counted[name] = [w for c in cs for w in c.counted]
 
     def run(self):
         for n in self.order:
@@ -382,6 +412,7 @@ class Translator:
             undispatched=[n for n in msgs if n not in table],
             blob_types=[n for n in msgs if self.has_blob[n]],
             ids={n: self.structs[n]["attrs"]["message_id"] for n in msgs},
+            count_hypothesis_fields=sorted({w for n in msgs for w in self.counted[n]}),
         )
         return self
 
@@ -391,7 +422,7 @@ class Translator:
         w = o.append
         w("(** GENERATED by tools/gen_wire.py from %s/vls-protocol/src/{model,msgs}.rs — do not edit.\n"
           "    Regenerated and re-proved on every run of `verif.py check C19`. *)" % repo)
-        w("From Coq Require Import List NArith Bool.")
+        w("From Coq Require Import List NArith Bool Lia.")
         w("From VLS Require Import Base.Codec Model.Wire Proofs.WireProofs.")
         w("Import ListNotations.\nOpen Scope N_scope.\n")
         w("Definition MAX_MESSAGE_SIZE : N := %d.\n" % self.src["max_message_size"])
@@ -408,7 +439,10 @@ class Translator:
                 w("Definition enc_%s : T_%s -> bytes := %s." % (n, n, c.enc))
                 w("Definition dec_%s : dec_t T_%s := %s." % (n, n, c.dec))
                 w("Definition wf_%s : T_%s -> bool := %s." % (n, n, c.wf))
-                w("Lemma rt_%s : roundtrip enc_%s dec_%s wf_%s.\nProof. exact (%s). Qed.\n" % (n, n, n, n, c.rt))
+                w("Lemma rt_%s : roundtrip enc_%s dec_%s wf_%s.\nProof. exact (%s). Qed." % (n, n, n, n, c.rt))
+                w("Definition ty_%s : T_%s -> bool := %s." % (n, n, c.ty))
+                w("Lemma sw_%s : size_wf enc_%s ty_%s wf_%s MAX_MESSAGE_SIZE.\nProof. exact (%s). Qed." % (n, n, n, n, c.sw))
+                w("Lemma ms_%s : min_size enc_%s ty_%s %d.\nProof. exact (%s). Qed.\n" % (n, n, n, c.minsize, c.ms))
                 continue
             fs = [f for f, _ in it["fields"]]
             mid = it["attrs"]["message_id"]
@@ -433,6 +467,21 @@ class Translator:
                 n, n, n, n, " ".join("v_" + f for f in fs), n, n, n,
                 (" cbn [%s] in *." % projs) if fs else "",
                 "".join("  rt_one (%s).\n" % c.rt for c in cs)))
+            tye = "true"
+            for f, c in reversed(list(zip(fs, cs))):
+                tye = "%s (%s_%s x) &&\n  (%s)" % (c.ty, n, f, tye)
+            w("Definition ty_%s (x : T_%s) : bool :=\n  %s." % (n, n, tye))
+            intro = "  intros [%s] Ht%s. unfold ty_%s in Ht.%s\n%s" % (
+                " ".join("v_" + f for f in fs), "%s", n, (" cbn [%s] in Ht." % projs) if fs else "",
+                "".join("  apply andb_true_iff in Ht; destruct Ht as [Ht%d Ht].\n" % k for k in range(len(fs))))
+            w("Lemma sw_%s : size_wf enc_%s ty_%s wf_%s MAX_MESSAGE_SIZE.\nProof.\n%s  unfold enc_%s in Hs. unfold wf_%s.%s rewrite ?lenN_app in Hs.\n%s  reflexivity.\nQed." % (
+                n, n, n, n, intro % " Hs", n, n, (" cbn [%s] in *." % projs) if fs else "",
+                "".join("  sw_one %s.\n" % c.swT() for c in cs)))
+            w("Lemma ms_%s : min_size enc_%s ty_%s %d.\nProof.\n%s%s  unfold enc_%s.%s rewrite ?lenN_app. lia.\nQed.\n" % (
+                n, n, n, self.minsz[n], intro % "",
+                "".join("  pose proof (%s v_%s Ht%d).\n" % (c.msT(), f, k)
+                        for k, (f, c) in enumerate(zip(fs, cs))),
+                n, (" cbn [%s]." % projs) if fs else ""))
         # messages
         w("(** ** the messages (every SerBolt struct) and the dispatch table (enum Message, in order) *)")
         w("Inductive msg : Type :=\n%s." % "\n".join("| M_%s (x : T_%s)" % (n, n) for n in self.msgs))
@@ -442,6 +491,8 @@ class Translator:
             "  | M_%s x => enc_%s x" % (n, n) for n in self.msgs))
         w("Definition wf_msg (m : msg) : bool :=\n  match m with\n%s\n  end." % "\n".join(
             "  | M_%s x => wf_%s x" % (n, n) for n in self.msgs))
+        w("Definition ty_msg (m : msg) : bool :=\n  match m with\n%s\n  end." % "\n".join(
+            "  | M_%s x => ty_%s x" % (n, n) for n in self.msgs))
         w("Definition msg_index (m : msg) : N :=\n  match m with\n%s\n  end." % "\n".join(
             "  | M_%s _ => %d" % (n, k) for k, n in enumerate(self.msgs)))
         w("Definition table : list (entry msg) := [\n%s\n]." % ";\n".join(
@@ -471,6 +522,14 @@ class Translator:
           "  exists e, In e table /\\ e_id e = msg_id m /\\ forall rest, e_dec e (enc_msg m ++ rest) = Some (m, rest).\n"
           "Proof.\n  intros m Hw. destruct m; (split; [reflexivity|]); cbn [wf_msg msg_id enc_msg] in *.\n%s\nQed.\n"
           % "\n".join("  - exact (arm_%s x Hw)." % n for n in self.msgs))
+        w("(** every bound in [wf_msg] that is not a typing fact follows from the encoding fitting MAX_MESSAGE_SIZE%s *)" % (
+            "" if not self.report["count_hypothesis_fields"] else
+            "\n    (except the element count of: %s — elements may be shorter than 3 bytes, so [ty_msg] keeps that count bound)"
+            % ", ".join(self.report["count_hypothesis_fields"])))
+        w("Lemma wf_from_size : forall m, ty_msg m = true -> lenN (as_vec m) <= MAX_MESSAGE_SIZE -> wf_msg m = true.\n"
+          "Proof.\n  intros m Ht Hs. unfold as_vec, as_vec_of in Hs. rewrite lenN_app in Hs.\n"
+          "  destruct m; cbn [ty_msg wf_msg enc_msg] in *.\n%s\nQed.\n"
+          % "\n".join("  - apply (sw_%s x Ht). lia." % n for n in self.msgs))
         w("End Gen.")
         return "\n".join(o) + "\n"
 
